@@ -206,7 +206,7 @@ pub fn run(rng: &mut Rng, ep: &Episode, kind: &str, o: &Opts, epno: usize) -> Ou
                 Ok(Err(e)) => format!("err:{}", variant(&e)),
                 _ => "panic".to_string(),
             };
-            events.push(json!({"op": "new", "ep": epno, "name": ep.name, "w": kind, "hand": o.hand(), "align": o.align, "ver": o.ver, "legacy": o.legacy, "comp": o.comp, "ree": schema_has_ree(&ep.schema), "dunion": schema_has_dense_union(&ep.schema), "cmeta": "[]",
+            events.push(json!({"op": "new", "ep": epno, "name": ep.name, "w": kind, "hand": o.hand(), "align": o.align, "ver": o.ver, "legacy": o.legacy, "comp": o.comp, "ree": schema_has_ree(&ep.schema), "dunion": schema_has_dense_union(&ep.schema), "ulist": schema_has_union_in_list(&ep.schema), "cmeta": "[]",
                                "ctor": what, "nd": 0, "top": [], "schema": schema_json(&ep.schema), "msgs": [], "start": 0}));
             return Outcome { events, skipped: false, refused: 0 };
         }
@@ -220,12 +220,13 @@ pub fn run(rng: &mut Rng, ep: &Episode, kind: &str, o: &Opts, epno: usize) -> Ou
     let start = if kind == "file" { (6 + o.align - 1) / o.align * o.align } else { 0 };
     let mut pos = parser.stream(w.bytes(), start.min(w.bytes().len()), &mut msgs);
     let magic_ok = kind != "file" || w.bytes().starts_with(b"ARROW1");
-    events.push(json!({"op": "new", "ep": epno, "name": ep.name, "w": kind, "hand": o.hand(), "align": o.align, "ver": o.ver, "legacy": o.legacy, "comp": o.comp, "ree": schema_has_ree(&ep.schema), "dunion": schema_has_dense_union(&ep.schema), "cmeta": "[]",
+    events.push(json!({"op": "new", "ep": epno, "name": ep.name, "w": kind, "hand": o.hand(), "align": o.align, "ver": o.ver, "legacy": o.legacy, "comp": o.comp, "ree": schema_has_ree(&ep.schema), "dunion": schema_has_dense_union(&ep.schema), "ulist": schema_has_union_in_list(&ep.schema), "cmeta": "[]",
                        "ctor": if magic_ok { "ok" } else { "bad-magic" }, "nd": nd, "top": tops, "schema": schema_json(&ep.schema), "msgs": msgs, "start": start}));
     let mut ids = ObjIds::default();
     let mut refused = 0;
     for (i, b) in ep.batches.iter().enumerate() {
         let dicts = dicts_json(b, &mut ids);
+        let flags = batch_flags(b);
         let r = guarded(|| w.write(b));
         let (res, unsup) = outcome_str(&r);
         if unsup {
@@ -236,7 +237,7 @@ pub fn run(rng: &mut Rng, ep: &Episode, kind: &str, o: &Opts, epno: usize) -> Ou
         }
         let mut msgs = vec![];
         pos = parser.stream(w.bytes(), pos, &mut msgs);
-        events.push(json!({"op": "write", "i": i + 1, "evo": ep.evo[i], "dicts": dicts, "res": res, "n": b.num_rows(), "ree0": has_empty_ree_slice(b), "cols": cols_json(b), "msgs": msgs}));
+        events.push(json!({"op": "write", "i": i + 1, "evo": ep.evo[i], "dicts": dicts, "res": res, "n": b.num_rows(), "ree0": flags.ree0, "uoff": flags.uoff, "cols": cols_json(b), "msgs": msgs}));
     }
     // user metadata of an IPC file (footer)
     let mut cmeta: Vec<(String, String)> = vec![];
